@@ -6,8 +6,9 @@ import random
 from .base import Result, V
 from vloop import run_virtual
 
-MODULES = ["TickitModel.Props.C19"]
-THEOREMS = ["one_socket", "queued_in_order_once", "direct_in_order", "serialize_parts", "serialize_bytes"]
+MODULES = ["TickitModel.Props.C19", 'TickitModel.Props.C19Cancel']
+THEOREMS = ["one_socket", "queued_in_order_once", "direct_in_order", "serialize_parts", "serialize_bytes",
+            'one_socket_cancel', 'socket_never_replaced', 'lock_never_orphaned', 'cancel_does_not_block', 'ensure_gets_socket', 'queued_in_order_once_cancel', 'direct_in_order_cancel', 'cancelled_never_writes', 'direct_all_written_cancel', 'queue_all_written_cancel', 'cancel_free_is_base', 'base_is_cancel_free', 'exec_is_run', 'seeded_one_cancel_kills_stream']
 ANCHORS = ["src/tickit/adapters/zmq.py", "src/tickit/adapters/io/zeromq_push_io.py"]
 TECHNIQUE = "Lean 4 theorems (invariant over every interleaving of the push-stream transition system: socket factory called at most once; queued messages written once each in queue order; direct sequences in their own order; part-wise serialisation) + seeded interleavings of the real ZeroMqPushIo/Adapter with a fake socket factory under the virtual clock, compared with the model"
 LEVEL_TEXT = ("Full-strength theorems over a small-step model with explicit yield points (FIFO lock acquisition, socket-factory latency, write, drain latency) "
@@ -16,7 +17,7 @@ LEVEL_TEXT = ("Full-strength theorems over a small-step model with explicit yiel
               "sequence is written in its own order; serialisation is part by part with bytes unchanged. Tied to zeromq_push_io.py / zmq.py by "
               "running the real classes with a fake socket factory whose creation and drain latencies are drawn from the seeded scheduler under the "
               "virtual loop; the recorded writes are compared with the property directly and the number of factory calls with the model. "
-              "json.dumps of str/mapping parts is the model's parameter (compared for generated values, no floats).")
+              "json.dumps of str/mapping parts is the model's parameter (compared for generated values, no floats). CANCELLATION (Core/ZmqCancel, Props/C19Cancel): the transition system extended by `cancel k` for every suspended sender (a cancelled waiter leaves the lock queue, a holder cancelled inside the factory releases the lock and leaves no socket): for EVERY history with any number of cancellations at most one factory call ever completes and the socket is never replaced (one_socket_cancel, socket_never_replaced), the lock is never orphaned, a cancelled sender never prevents a non-cancelled one from writing (cancel_does_not_block, ensure_gets_socket: a finite cancel-free continuation exists from every reachable state), written ++ in-hand ++ pending = queued / origin for queue and direct senders (exactly-once in order, at most once for cancelled senders), histories without cancel are exactly those of the base system (cancel_free_is_base, base_is_cancel_free); the shared un-shielded future variant provably loses the stream after one cancellation (seeded_one_cancel_kills_stream). Cancellation is taken as atomic at its linearisation point (asyncio delivers it when the task next runs): an informal argument, not a theorem.")
 LEVEL_NOTE = "Trusts: Lean kernel; hand-written transition system (asyncio.Lock modelled as FIFO); aiozmq/zmq are replaced by a fake stream; json.dumps is a parameter."
 ASSUMPTIONS = ["asyncio.Lock is FIFO-fair", "message parts are bytes, str, mappings or pydantic models"]
 
@@ -94,6 +95,104 @@ def one_run(seed, n_queue, n_direct_seqs):
     return res, writes, len(calls), queued, direct
 
 
+
+def cancel_run(seed):
+    """the real ZeroMqPushIo with sender tasks CANCELLED at arbitrary suspension points (waiting for the lock, inside
+    the socket factory, inside drain()); returns the list of property violations (statements of Props/C19Cancel)"""
+    from tickit.adapters.io.zeromq_push_io import ZeroMqPushIo
+    from tickit.adapters.zmq import ZeroMqPushAdapter
+    rng = random.Random(seed)
+    calls = {"started": 0, "completed": 0, "aborted": 0}
+    socks, out, stats = [], [], {}
+
+    class Sock:
+        def __init__(self):
+            self.w = []
+
+        def write(self, m):
+            self.w.append(m)
+
+        async def drain(self):
+            await asyncio.sleep(rng.choice([0, 1e-6, 3e-6]))
+
+        def close(self):
+            pass
+
+    async def factory(host, port):
+        calls["started"] += 1
+        try:
+            await asyncio.sleep(rng.choice([0.0, 5e-6, 2e-5]))
+        except asyncio.CancelledError:
+            calls["aborted"] += 1
+            raise
+        calls["completed"] += 1
+        sk = Sock()
+        socks.append(sk)
+        return sk
+
+    async def main(loop):
+        io = ZeroMqPushIo(socket_factory=factory)
+        ad = ZeroMqPushAdapter()
+        tasks, seqs, queued, cancelled = {}, {}, [], set()
+        n = 0
+        tasks[0] = asyncio.ensure_future(io.send_messages_forever(ad))
+
+        async def seq(msgs):
+            for m in msgs:
+                await io.send_message(m)
+        for step in range(rng.randint(5, 25)):
+            r = rng.random()
+            if r < 0.3:
+                n += 1
+                m = [b"q%d" % n]
+                queued.append(m)
+                ad.add_message_to_stream(m)
+            elif r < 0.55:
+                k = len(tasks)
+                msgs = []
+                for _ in range(rng.randint(1, 3)):
+                    n += 1
+                    msgs.append([b"d%d" % n])
+                seqs[k] = msgs
+                tasks[k] = asyncio.ensure_future(seq(msgs))
+            elif r < 0.65:
+                k = len(tasks)
+                seqs[k] = []
+                tasks[k] = asyncio.ensure_future(io._ensure_socket())
+            elif r < 0.85:
+                k = rng.choice(list(tasks))
+                if not tasks[k].done() and tasks[k].cancel():
+                    cancelled.add(k)
+            await asyncio.sleep(rng.choice([0, 0, 1e-6, 4e-6, 1e-5]))
+        await asyncio.sleep(5e-4)
+        stats.update(cancelled=len(cancelled), aborted=calls["aborted"])
+        if calls["completed"] > 1 or len(socks) != calls["completed"]:
+            out.append(V("socket-count", f"{calls['completed']} socket factory calls completed ({calls})", site="ZeroMqPushIo._ensure_socket", cancellation=True))
+        w = socks[0].w if socks else []
+        for k, msgs in seqs.items():
+            mine = [m for m in w if m in msgs]
+            if k not in cancelled:
+                if not tasks[k].done() or tasks[k].exception() is not None:
+                    out.append(V("sender-blocked", f"sender {k} was not cancelled but did not finish ({'pending' if not tasks[k].done() else repr(tasks[k].exception())}) after others were cancelled "
+                                 f"({sorted(cancelled)}); factory calls {calls}", site="ZeroMqPushIo._ensure_socket", cancellation=True))
+                elif mine != msgs:
+                    out.append(V("direct-order", f"sender {k} (not cancelled) wrote {mine}, its messages are {msgs}", site="ZeroMqPushIo.send_message", cancellation=True))
+            elif mine != msgs[:len(mine)]:
+                out.append(V("direct-order", f"cancelled sender {k} wrote {mine}, not a prefix of {msgs}", site="ZeroMqPushIo.send_message", cancellation=True))
+        qw = [m for m in w if m in queued]
+        if (0 not in cancelled and qw != queued) or qw != queued[:len(qw)]:
+            out.append(V("queue-order", f"queued writes {qw}, queued {queued} (forwarding task cancelled: {0 in cancelled})", site="ZeroMqPushIo.send_messages_forever", cancellation=True))
+        if len(w) != len({id(m) for m in w}):
+            out.append(V("write-count", "a message was written twice", site="ZeroMqPushIo", cancellation=True))
+        if io._socket_lock.locked():
+            out.append(V("sender-blocked", "the socket lock is still held after every sender has finished", site="ZeroMqPushIo._ensure_socket", cancellation=True))
+        tasks[0].cancel()
+        return True
+    r, _ = run_virtual(main, max_steps=200000)
+    if r[0] != "ok":
+        out.append(V("run-did-not-complete", str(r), site="run", cancellation=True))
+    return out, stats
+
 def serial(msg):
     """the fixed rule: bytes as they are, strings and mappings as JSON, models as the JSON of their dict"""
     return [p if isinstance(p, bytes) else json.dumps(p.dict() if hasattr(p, "dict") and not isinstance(p, dict) else p).encode("utf_8") for p in msg]
@@ -123,6 +222,16 @@ def run(tier, seed, drv):
                 res.violate(V("direct-order", f"direct sequence {k}: {dw} expected {seq}", site="ZeroMqPushIo.send_message_sequence_soon"), case)
         if len(writes) != len(queued) + sum(len(s) for s in direct):
             res.violate(V("write-count", f"{len(writes)} writes for {len(queued)} queued + {sum(len(s) for s in direct)} direct", site="ZeroMqPushIo"), case)
+    # cancellation at arbitrary suspension points (the statements of Props/C19Cancel on the real io)
+    for i in range(150 if tier == "quick" else 2000):
+        sd = rng.randrange(1 << 30)
+        vs, st = cancel_run(sd)
+        res.case(f"cancel:{sd}", nontrivial=st.get("cancelled", 0) > 0)
+        res.count("cancel-runs")
+        res.count("cancellations", st.get("cancelled", 0))
+        res.count("aborted-factory-calls", st.get("aborted", 0))
+        for v in vs:
+            res.violate(v, {"cancel_seed": sd})
     # model side: random interleavings of the transition system give one factory call as well,
     # and the abstract schedule "everything to completion" reproduces the queue order
     reqs = []
@@ -169,13 +278,16 @@ def run(tier, seed, drv):
             res.violate(V("serialise", f"{msg} -> {out}", site="ZeroMqPushIo._serialize"), {"msg": repr(msg)})
     res.rule = ("seeded runs of the real ZeroMqPushIo + ZeroMqPushAdapter: 0-6 queued messages (some with mapping parts), 0-3 directly spawned sequences, "
                 "set-up before or after queueing, fake socket factory and drain with random latencies (loop yields and virtual microseconds); checked: "
-                "factory calls == 1, queued writes == queue order once each, each direct sequence in order, total writes; plus random action lists "
+                "factory calls == 1, queued writes == queue order once each, each direct sequence in order, total writes; seeded runs in which sender tasks are CANCELLED at arbitrary suspension points (lock queue, socket factory, drain): at most one completed factory call, no non-cancelled sender blocked, order and at-most-once preserved; plus random action lists "
                 "through the Lean transition system and part-wise serialisation of generated messages; non-trivial = more than one message")
     return res
 
 
 def replay(payload, drv):
     c = payload["case"]
+    if "cancel_seed" in c:
+        vs, st = cancel_run(c["cancel_seed"])
+        return {"stats": st, "violations": vs}
     if "seed" not in c:
         return {"violations": []}
     r, writes, calls, queued, direct = one_run(c["seed"], c["n_queue"], c["n_direct"])
